@@ -1,0 +1,149 @@
+//! Verification seams (cargo feature `verif-hooks`, off by default).
+//!
+//! Nothing in this module is compiled unless the feature is enabled. It puts the two sources
+//! of nondeterminism / failure of the library behind seams owned by a simulator:
+//!
+//! * H1 - the keys of every `HashMap`/`HashSet` created by `parser.rs` and `validation.rs`
+//!   (normally `RandomState`, i.e. OS randomness + per-thread counter),
+//! * H2 - the file opened by `Parser::add_file`.
+//!
+//! The hash table implementation itself (std/hashbrown), `read_to_string` and all the library
+//! code stay the real ones.
+
+use std::cell::{Cell, RefCell};
+use std::hash::{BuildHasher, Hasher};
+use std::io::Read;
+use std::path::Path;
+
+pub use std::collections::hash_map;
+
+/// Signature of the simulated disk: called by `Parser::add_file` instead of `File::open`.
+pub type Disk = Box<dyn FnMut(&Path) -> std::io::Result<Box<dyn Read>>>;
+
+thread_local! {
+    // (next key, step): every new table takes `next key`, then `next key += step`
+    static KEY_SOURCE: Cell<(u64, u64)> = Cell::new((0, 0));
+    static TABLE_INSTANCES: Cell<u64> = Cell::new(0);
+    static DISK: RefCell<Option<Disk>> = RefCell::new(None);
+}
+
+/// H1: set the key source of the calling thread. The next table created on this thread gets
+/// the key `next`, the one after `next + step`, and so on (`step == 0`: all tables share one key).
+pub fn set_hash_keys(next: u64, step: u64) {
+    KEY_SOURCE.with(|k| k.set((next, step)));
+}
+
+/// H1: current state of the key source of the calling thread.
+pub fn hash_keys() -> (u64, u64) {
+    KEY_SOURCE.with(|k| k.get())
+}
+
+/// H1: number of tables created on the calling thread so far.
+pub fn table_instances() -> u64 {
+    TABLE_INSTANCES.with(|c| c.get())
+}
+
+/// H2: install (or remove) the simulated disk of the calling thread.
+pub fn set_disk(disk: Option<Disk>) {
+    DISK.with(|c| *c.borrow_mut() = disk);
+}
+
+/// H2: open a file through the simulated disk if one is installed, else through the real one.
+pub fn open(path: &Path) -> std::io::Result<Box<dyn Read>> {
+    // Note: the disk is taken out while it runs so that it may itself call into this module
+    let disk = DISK.with(|c| c.borrow_mut().take());
+    match disk {
+        Some(mut d) => {
+            let res = d(path);
+            DISK.with(|c| {
+                let mut slot = c.borrow_mut();
+                if slot.is_none() {
+                    *slot = Some(d);
+                }
+            });
+            res
+        }
+        None => Ok(Box::new(std::fs::File::open(path)?) as Box<dyn Read>),
+    }
+}
+
+/// Keyed hasher state which replaces `RandomState` in the tables of the library.
+#[derive(Clone, Debug)]
+pub struct SimHashState {
+    key: u64,
+}
+
+impl SimHashState {
+    pub fn with_key(key: u64) -> Self {
+        SimHashState { key }
+    }
+
+    pub fn key(&self) -> u64 {
+        self.key
+    }
+}
+
+impl Default for SimHashState {
+    fn default() -> Self {
+        TABLE_INSTANCES.with(|c| c.set(c.get().wrapping_add(1)));
+        KEY_SOURCE.with(|k| {
+            let (next, step) = k.get();
+            k.set((next.wrapping_add(step), step));
+            SimHashState { key: next }
+        })
+    }
+}
+
+pub struct SimHasher {
+    state: u64,
+}
+
+impl Hasher for SimHasher {
+    fn finish(&self) -> u64 {
+        // splitmix64 finalizer
+        let mut z = self.state;
+        z = (z ^ (z >> 30)).wrapping_mul(0xbf58_476d_1ce4_e5b9);
+        z = (z ^ (z >> 27)).wrapping_mul(0x94d0_49bb_1331_11eb);
+        z ^ (z >> 31)
+    }
+
+    fn write(&mut self, bytes: &[u8]) {
+        for b in bytes {
+            self.state = (self.state ^ u64::from(*b)).wrapping_mul(0x0000_0100_0000_01b3);
+        }
+    }
+}
+
+impl BuildHasher for SimHashState {
+    type Hasher = SimHasher;
+
+    fn build_hasher(&self) -> SimHasher {
+        let mut z = self.key.wrapping_add(0x9e37_79b9_7f4a_7c15);
+        z = (z ^ (z >> 30)).wrapping_mul(0xbf58_476d_1ce4_e5b9);
+        z = (z ^ (z >> 27)).wrapping_mul(0x94d0_49bb_1331_11eb);
+        SimHasher {
+            state: z ^ (z >> 31) ^ 0xcbf2_9ce4_8422_2325,
+        }
+    }
+}
+
+pub type HashMap<K, V> = std::collections::HashMap<K, V, SimHashState>;
+pub type HashSet<T> = std::collections::HashSet<T, SimHashState>;
+
+/// `HashMap::new()` / `HashSet::new()` only exist for `RandomState`: this trait lets the
+/// existing call sites compile unchanged against the aliases above.
+pub trait VerifNew {
+    fn new() -> Self;
+}
+
+impl<K, V> VerifNew for HashMap<K, V> {
+    fn new() -> Self {
+        Self::default()
+    }
+}
+
+impl<T> VerifNew for HashSet<T> {
+    fn new() -> Self {
+        Self::default()
+    }
+}
